@@ -20,6 +20,8 @@ if ok:
     for m in sorted(glob.glob("/verif/seeded/*/meta.json")):
         meta = json.load(open(m))
         if meta.get("property") != pid: continue
+        if meta.get("superseded_by"):   # the patch no longer applies to the repaired tree; its result stands on its base commit
+            print(" seed", meta["seed_id"], "skipped (superseded by", meta["superseded_by"] + ")"); continue
         rc2, o2 = sh(f"python3 tools/verify_seed.py /tmp/none X {pid} {meta['seed_id']} --only-check")
         caught = '"caught_by_quick": true' in o2
         print(" seed", meta["seed_id"], "caught" if caught else "MISSED")
